@@ -35,6 +35,39 @@ CLAIMED["C09"] = {
     "design_ref": "DESIGN.md section 8, C09",
 }
 
+
+CLAIMED["C10"] = {
+    "text": "Theorems C10_sanity_iff / C10_sanity_first / C10_sanity_latch_stable (for every 64-byte header = all 2^512 values, the "
+            "[E10] check passes iff every documented sanity condition holds, relative to the latched first header version or the "
+            "configured one, plus the ITS system id with an ITS target) and C10_running_iff (for every history that begins at an HBF "
+            "start and does not wrap the 16-bit page counter, [E11] is raised for the last RDH iff it breaks the documented "
+            "page-counter / stop-bit / orbit / same-HBF rule; by an invariant over the history) are proved about a model of "
+            "RdhCruSanityValidator and RdhCruRunningChecker whose masks and bounds are regenerated from the source. Tied to the code by "
+            "a correspondence sweep through the real LinkValidator: every single-bit deviation of all 512 bits at positions of "
+            "conforming histories, boundary values, random walks, random headers; each RDH's reported codes and offset are also "
+            "compared with the specification's verdict.",
+    "note": "Trusted: Coq kernel + vm_compute (per-byte facts); gen translator; harness; extraction + driver; message-text "
+            "canonicalisation; our reading of doc/checks_list.md (Spec/RdhRules.v, D1 D2). Model-to-code agreement is sampled "
+            "(exhaustive over single bits of the sampled histories).",
+    "technique": "Coq proof (bit-field lemmas over the 512-bit header; history invariant by induction) + differential correspondence model vs code",
+    "design_ref": "DESIGN.md section 8, C10",
+}
+CLAIMED["C12"] = {
+    "text": "Theorems C12_fmt2 / C12_fmt0 (for every word list and padding length, a payload laid out as its format prescribes is cut "
+            "into exactly those words with the right slot size, under the two guards the code needs), C12_chunk_at (chunk i is the "
+            "slice at i*slot, wholly inside the payload: once each, in order, no overlap), C12_too_much_padding / C12_padding_ok, and "
+            "the packet-level C12_packet_too_much_padding (one un-coded message at the RDH offset, no word examined, FSM back to the "
+            "initial state), C12_packet_words, C12_words_in_order are proved over Model/Payload.v and Model/CdpRunning.v. The unguarded "
+            "statement is refuted by C12_refuted_fmt2 / C12_refuted_fmt0 with witnesses (known findings F12/F13, listed in "
+            "known_findings.txt and replayed on the real code on every run). Tied to the code by preprocess_payload and LinkValidator "
+            "correspondence over both formats x word counts x padding lengths x residues.",
+    "note": "Trusted: Coq kernel; gen translator (padding limits, slot sizes pinned); harness; extraction + driver; canonicalisation. "
+            "The guards (payload bytes 10..15 not all zero for format 2 / zero slot padding for format 0 / last word not ending in 0xFF) "
+            "are exactly the inputs on which the code departs from the property: recorded as findings, not hidden.",
+    "technique": "Coq proof (list induction over chunks; refutation witnesses by computation) + differential correspondence model vs code",
+    "design_ref": "DESIGN.md section 8, C12",
+}
+
 ALL = ["C%02d" % i for i in range(1, 21)]
 PENDING_REASON = "not claimed yet: the model/proof for this property is still under construction in this development (see DESIGN.md section 12 build order); no check is registered until its theorem file compiles without admits and its correspondence stream runs"
 
